@@ -74,6 +74,16 @@ impl DSet {
             comment_end: self.ce.into(),
         }
     }
+    fn to_tera_ref(&self) -> tera::Delimiters {
+        tera::Delimiters {
+            block_start: self.bs.into(),
+            block_end: self.be.into(),
+            variable_start: self.vs.into(),
+            variable_end: self.ve.into(),
+            comment_start: self.cs.into(),
+            comment_end: self.ce.into(),
+        }
+    }
     /// Leftmost position of any start delimiter — the documented reading of "where a tag begins".
     fn first_start(&self, s: &str) -> Option<usize> {
         self.starts().iter().filter_map(|d| s.find(d)).min()
@@ -1202,6 +1212,126 @@ fn main() {
             });
         });
     }
+
+    // ------------------------------------------------------------------ rejected delimiter sets
+    // "under any ACCEPTED custom delimiter set": a set that set_delimiters refuses must not take
+    // effect. Every way validate() refuses a set (each of the six delimiters one byte too short and
+    // one too long, each pair of equal start delimiters), tried on an instance configured with
+    // each valid set; afterwards the instance must render a battery - which contains the refused
+    // set's delimiters as literal text and tags spelled in the set in force - exactly like an
+    // instance that never saw the refused call. Also: set_delimiters after a template was added
+    // must fail and change nothing.
+    let bad_sets: Vec<(String, [&'static str; 6])> = {
+        // [bs, be, vs, ve, cs, ce]
+        let base: [&'static str; 6] = ["[%", "%]", "[[", "]]", "[#", "#]"];
+        let mut v: Vec<(String, [&'static str; 6])> = vec![];
+        let names = ["block_start", "block_end", "variable_start", "variable_end", "comment_start", "comment_end"];
+        let short: [&'static str; 6] = ["[", "]", "$", "]", "~", "]"];
+        let long: [&'static str; 6] = ["[[[", "]]]", "[[[", "]]]", "[##", "##]"];
+        for k in 0..6 {
+            let mut s = base;
+            s[k] = short[k];
+            v.push((format!("{}-one-byte", names[k]), s));
+            let mut l = base;
+            l[k] = long[k];
+            v.push((format!("{}-three-bytes", names[k]), l));
+        }
+        v.push(("block_start=variable_start".into(), ["[[", "%]", "[[", "]]", "[#", "#]"]));
+        v.push(("block_start=comment_start".into(), ["[#", "%]", "[[", "]]", "[#", "#]"]));
+        v.push(("variable_start=comment_start".into(), ["[%", "%]", "[#", "]]", "[#", "#]"]));
+        // sets that would lex ordinary text if they took effect
+        v.push(("letters-block_start-one-byte".into(), ["a", " b", "x ", " y", "c ", " d"]));
+        v
+    };
+    let n_bad = bad_sets.len() as u64;
+    run.extra("refused_delimiter_sets", json!(bad_sets.iter().map(|(n, s)| json!({"name": n, "set": s})).collect::<Vec<_>>()));
+    run.family(
+        Family::new(
+            "rejected-delimiters",
+            n_bad * DSETS.len() as u64,
+            &format!("{n_bad} delimiter sets validate() refuses x {} valid sets in force: after the refused call (on an empty instance, and on one holding a template, where any set_delimiters call must fail) a battery of sources spelled in the set in force, with the refused set's delimiters as literal text, renders as on an instance that never saw the call; both entry points", DSETS.len()),
+        ),
+        |item, acc: &mut Acc| {
+            let (bi, di) = ((item / DSETS.len() as u64) as usize, (item % DSETS.len() as u64) as usize);
+            let (bname, bad) = &bad_sets[bi];
+            let d = &DSETS[di];
+            let bad_tera = || tera::Delimiters {
+                block_start: bad[0].into(),
+                block_end: bad[1].into(),
+                variable_start: bad[2].into(),
+                variable_end: bad[3].into(),
+                comment_start: bad[4].into(),
+                comment_end: bad[5].into(),
+            };
+            // battery: tags of the set in force; literal text made of the refused set's delimiters
+            let mut battery: Vec<String> = vec![
+                format!("{} if true {}yes{} endif {}", d.bs, d.be, d.bs, d.be),
+                format!("a {}- x -{} b", d.vs, d.ve),
+                format!("[{} c {}]", d.cs, d.ce),
+                format!("{} raw {}{} x {}{} endraw {}", d.bs, d.be, bad[2], bad[3], d.bs, d.be),
+                "plain text a b x y c d".to_string(),
+            ];
+            for k in 0..3 {
+                // refused start / end pair around a word, as literal text
+                battery.push(format!("t{} x {}u", bad[2 * k], bad[2 * k + 1]));
+                battery.push(format!("{} if true {}{}{} endif {}", d.bs, d.be, bad[2 * k], d.bs, d.be));
+            }
+            // the battery must not contain delimiters of the set in force by accident
+            let usable = |s: &str, extra_ok: bool| extra_ok || !d.all().iter().any(|x| s.contains(x));
+            let plain = &j.teras[di];
+            for (variant, with_template) in [("empty-instance", false), ("instance-with-template", true)] {
+                let mut t = plain.clone();
+                if with_template {
+                    t.add_raw_template("keep", "K").expect("plain template registers");
+                }
+                let r = engine::guarded(|| t.set_delimiters(bad_tera()));
+                let case = |src: &str| json!({"set_in_force": d.json(), "refused_set": {"name": bname, "set": bad}, "history": variant, "source": src});
+                match r {
+                    Ok(Err(_)) => {}
+                    Ok(Ok(())) => {
+                        acc.violation(format!("rejected-delimiters:accepted:{variant}"), format!("set_delimiters accepted the set `{bname}`"), || case(""));
+                        continue;
+                    }
+                    Err(p) => {
+                        acc.violation("rejected-delimiters:panic".to_string(), format!("set_delimiters panicked: {p}"), || case(""));
+                        continue;
+                    }
+                }
+                if with_template {
+                    // a VALID set is refused too once templates exist, and must not take effect either
+                    let other = DSETS[(di + 1) % DSETS.len()].to_tera_ref();
+                    match engine::guarded(|| t.set_delimiters(other)) {
+                        Ok(Err(_)) => {}
+                        _ => acc.violation("rejected-delimiters:valid-set-accepted-after-templates".to_string(), "set_delimiters succeeded (or panicked) on an instance that holds templates".to_string(), || case("")),
+                    }
+                }
+                for (bidx, src) in battery.iter().enumerate() {
+                    // the first four sources contain delimiters of the set in force on purpose
+                    if !usable(src, bidx < 4 || src.contains(d.bs)) {
+                        acc.case(false, "rejected-delimiters:source-contains-a-delimiter-in-force");
+                        continue;
+                    }
+                    let want = engine::render_str(plain, src, &j.ctx, false);
+                    let got = engine::render_str(&t, src, &j.ctx, false);
+                    let mut t2 = t.clone();
+                    let got_add = match engine::add_templates(&mut t2, &[("zz".to_string(), src.clone())]) {
+                        Out::Ok(_) => engine::render(&t2, "zz", &j.ctx),
+                        other => other,
+                    };
+                    for (entry, g) in [("render_str", &got), ("add+render", &got_add)] {
+                        if !same_out(g, &want) {
+                            acc.violation(
+                                format!("rejected-delimiters:took-effect:{entry}"),
+                                format!("after the refused set_delimiters call {entry} gives {} where an untouched instance gives {}", g.show(), want.show()),
+                                || case(src),
+                            );
+                        }
+                    }
+                    acc.case(true, &format!("rejected-delimiters:{variant}:{}", want.class()));
+                }
+            }
+        },
+    );
 
     if run.is_supervisor() {
         let id_ok = run.outcome("identity", "ok");
